@@ -249,6 +249,8 @@ Variables cfg1 cfg2 : config.
 Variable TM : Prop.
 Hypothesis Hexp : exp cfg1 = exp cfg2.
 Hypothesis HTM : TM -> period cfg1 = period cfg2.
+(* the welcome frame carries the configured notices *)
+Hypothesis Hwel : welcome cfg1 = welcome cfg2.
 
 Record sim (s1 s2 : state) : Prop := mkSim
   { sim_w : chan_w s1 = chan_w s2;
@@ -727,9 +729,11 @@ Proof.
     rewrite <- (sim_conns _ _ Hs).
     assert (Hs1 : sim (set_conns s1 (conns s1 ++ [(c, new_conn)]))
                       (set_conns s2 (conns s1 ++ [(c, new_conn)]))) by (apply sim_set_conns; exact Hs).
-    destruct (run_m_sim (on_open c) (on_open c) T T _ _ (Rp_send T c FWelcome) Hs1 Logic.I) as [A B].
-    destruct (run_m (on_open c) (set_conns s1 (conns s1 ++ [(c, new_conn)]))) as [u1 x1].
-    destruct (run_m (on_open c) (set_conns s2 (conns s1 ++ [(c, new_conn)]))) as [u2 x2].
+    assert (Ro : R T eq (fun _ => T) (on_open cfg1 c) (on_open cfg2 c)).
+    { unfold on_open. rewrite <- Hwel. apply Rp_send. }
+    destruct (run_m_sim (on_open cfg1 c) (on_open cfg2 c) T T _ _ Ro Hs1 Logic.I) as [A B].
+    destruct (run_m (on_open cfg1 c) (set_conns s1 (conns s1 ++ [(c, new_conn)]))) as [u1 x1].
+    destruct (run_m (on_open cfg2 c) (set_conns s2 (conns s1 ++ [(c, new_conn)]))) as [u2 x2].
     cbn [fst snd] in A, B. auto.
   - rewrite <- (has_conn_sim c _ _ Hs). destruct (has_conn c s1); [|auto].
     pose proof (R_on_message c m o s1 s2 Hs Hd) as H.
@@ -803,7 +807,7 @@ Qed.
 
 (** * one step *)
 Theorem step_view_congruence cfg1 cfg2 s1 s2 e :
-  exp cfg1 = exp cfg2 -> 0 < exp cfg1 ->
+  exp cfg1 = exp cfg2 -> welcome cfg1 = welcome cfg2 -> 0 < exp cfg1 ->
   SInv s1 -> SInv s2 -> log s1 = [] -> log s2 = [] ->
   view_of s1 = view_of s2 -> plain e -> same_firing s1 s2 e ->
   let '(s1', o1) := step cfg1 s1 e in
@@ -813,10 +817,10 @@ Theorem step_view_congruence cfg1 cfg2 s1 s2 e :
   (allow_list cfg1 = allow_list cfg2 -> frames_of (o_log o1) = frames_of (o_log o2)) /\
   o_exc o1 = o_exc o2 /\ o_valid o1 = o_valid o2.
 Proof.
-  intros He Hpos H1 H2 L1 L2 Hv Hp Hf. destruct e as [b|k b|]; try contradiction.
+  intros He Hw Hpos H1 H2 L1 L2 Hv Hp Hf. destruct e as [b|k b|]; try contradiction.
   assert (Hs : sim cfg1 cfg2 False s1 s2).
   { apply view_sim; try assumption. intros []. }
-  pose proof (step_sim cfg1 cfg2 False He (fun f : False => match f with end)
+  pose proof (step_sim cfg1 cfg2 False He (fun f : False => match f with end) Hw
                        s1 s2 b Hs (si_db _ H1) Hf) as H.
   destruct (step cfg1 s1 (EB b)) as [s1' o1]. destruct (step cfg2 s2 (EB b)) as [s2' o2].
   destruct H as (A & B & C & D & E). split; [exact (sim_view _ _ _ _ _ A)|auto].
@@ -832,7 +836,7 @@ Fixpoint same_firing_run cfg1 cfg2 (s1 s2 : state) (h : list event) : Prop :=
   end.
 
 Theorem run_view_congruence cfg1 cfg2 h : forall s1 s2,
-  exp cfg1 = exp cfg2 -> 0 < exp cfg1 ->
+  exp cfg1 = exp cfg2 -> welcome cfg1 = welcome cfg2 -> 0 < exp cfg1 ->
   SInv s1 -> SInv s2 -> log s1 = [] -> log s2 = [] ->
   view_of s1 = view_of s2 -> same_firing_run cfg1 cfg2 s1 s2 h ->
   let '(s1', os1) := run cfg1 s1 h in
@@ -844,18 +848,18 @@ Theorem run_view_congruence cfg1 cfg2 h : forall s1 s2,
    map (fun o => frames_of (o_log o)) os1 = map (fun o => frames_of (o_log o)) os2) /\
   map o_exc os1 = map o_exc os2.
 Proof.
-  induction h as [|e h IH]; intros s1 s2 He Hpos H1 H2 L1 L2 Hv Hf.
+  induction h as [|e h IH]; intros s1 s2 He Hw Hpos H1 H2 L1 L2 Hv Hf.
   - cbn. auto.
   - cbn [same_firing_run] in Hf. destruct Hf as (Hp & Hf1 & Hfr). cbn [run].
     assert (Hpos2 : 0 < exp cfg2) by (rewrite <- He; exact Hpos).
-    pose proof (step_view_congruence cfg1 cfg2 s1 s2 e He Hpos H1 H2 L1 L2 Hv Hp Hf1) as Hstep.
+    pose proof (step_view_congruence cfg1 cfg2 s1 s2 e He Hw Hpos H1 H2 L1 L2 Hv Hp Hf1) as Hstep.
     pose proof (step_spec cfg1 Hpos s1 e H1) as S1.
     pose proof (step_spec cfg2 Hpos2 s2 e H2) as S2.
     destruct (step cfg1 s1 e) as [t1 o1]. destruct (step cfg2 s2 e) as [t2 o2].
     cbn [fst] in Hfr.
     destruct S1 as (I1 & M1 & _). destruct S2 as (I2 & M2 & _).
     destruct Hstep as (Hv' & Hm & Ha & Hx & _).
-    specialize (IH t1 t2 He Hpos I1 I2 M1 M2 Hv' Hfr).
+    specialize (IH t1 t2 He Hw Hpos I1 I2 M1 M2 Hv' Hfr).
     destruct (run cfg1 t1 h) as [u1 os1]. destruct (run cfg2 t2 h) as [u2 os2].
     destruct IH as (A & B & C & D). cbn [map].
     split; [exact A|]. split; [f_equal; assumption|].
@@ -864,11 +868,11 @@ Qed.
 
 (** with the same period and the same timer state the firing condition is automatic *)
 Lemma same_firing_sim cfg1 cfg2 h : forall s1 s2,
-  period cfg1 = period cfg2 -> exp cfg1 = exp cfg2 -> 0 < exp cfg1 ->
+  period cfg1 = period cfg2 -> exp cfg1 = exp cfg2 -> welcome cfg1 = welcome cfg2 -> 0 < exp cfg1 ->
   SInv s1 -> SInv s2 -> sim cfg1 cfg2 True s1 s2 ->
   Forall plain h -> same_firing_run cfg1 cfg2 s1 s2 h.
 Proof.
-  induction h as [|e h IH]; intros s1 s2 Hper He Hpos H1 H2 Hs Hpl; cbn [same_firing_run]; [exact I|].
+  induction h as [|e h IH]; intros s1 s2 Hper He Hw Hpos H1 H2 Hs Hpl; cbn [same_firing_run]; [exact I|].
   inversion Hpl as [|? ? Hp Hpl']; subst.
   destruct e as [b|k b|]; try contradiction.
   assert (Hf : same_firing s1 s2 (EB b)).
@@ -876,7 +880,7 @@ Proof.
     destruct (sim_tm _ _ _ _ _ Hs I) as [_ K]. rewrite K, (sim_now _ _ _ _ _ Hs). reflexivity. }
   split; [exact I|]. split; [exact Hf|].
   assert (Hpos2 : 0 < exp cfg2) by (rewrite <- He; exact Hpos).
-  pose proof (step_sim cfg1 cfg2 True He (fun _ => Hper) s1 s2 b Hs (si_db _ H1) Hf) as H.
+  pose proof (step_sim cfg1 cfg2 True He (fun _ => Hper) Hw s1 s2 b Hs (si_db _ H1) Hf) as H.
   pose proof (step_spec cfg1 Hpos s1 (EB b) H1) as S1.
   pose proof (step_spec cfg2 Hpos2 s2 (EB b) H2) as S2.
   destruct (step cfg1 s1 (EB b)) as [t1 o1]. destruct (step cfg2 s2 (EB b)) as [t2 o2].
@@ -885,12 +889,12 @@ Proof.
 Qed.
 
 Lemma same_firing_same_timer cfg1 cfg2 h : forall s1 s2,
-  period cfg1 = period cfg2 -> exp cfg1 = exp cfg2 -> 0 < exp cfg1 ->
+  period cfg1 = period cfg2 -> exp cfg1 = exp cfg2 -> welcome cfg1 = welcome cfg2 -> 0 < exp cfg1 ->
   SInv s1 -> SInv s2 -> log s1 = [] -> log s2 = [] ->
   view_of s1 = view_of s2 -> timer_start s1 = timer_start s2 -> next_due s1 = next_due s2 ->
   Forall plain h -> same_firing_run cfg1 cfg2 s1 s2 h.
 Proof.
-  intros s1 s2 Hper He Hpos H1 H2 L1 L2 Hv Ht Hn Hpl.
+  intros s1 s2 Hper He Hw Hpos H1 H2 L1 L2 Hv Ht Hn Hpl.
   apply same_firing_sim; try assumption.
   apply view_sim; auto.
 Qed.
@@ -1043,7 +1047,7 @@ Corollary restart_invisible cfg s h2 :
 Proof.
   intros Hpos H L sr sd Hf.
   destruct (restart_as_drop_and_sweep cfg s Hpos H L) as (Hv & Hr & Hd & Lr & Ld).
-  pose proof (run_view_congruence cfg cfg h2 sr sd eq_refl Hpos Hr Hd Lr Ld Hv Hf) as K.
+  pose proof (run_view_congruence cfg cfg h2 sr sd eq_refl eq_refl Hpos Hr Hd Lr Ld Hv Hf) as K.
   destruct (run cfg sr h2) as [sr' osr]. destruct (run cfg sd h2) as [sd' osd].
   destruct K as (A & _ & C & D). auto.
 Qed.
